@@ -49,18 +49,20 @@ CONSTANTS Deviations,   \* deviation tags of the outbox that are enabled
           CallOps,      \* operation names clients may invoke
           MaxOps,       \* total number of client calls
           MaxQueue,     \* bound on queued entries
-          MaxRestarts   \* bound on worker restarts (0 = the worker never dies)
+          MaxRestarts,  \* bound on worker restarts (0 = the worker never dies)
+          PreState      \* "empty" | "bucket" | "object": what exists before the first call
 
 VARIABLES inner,     \* Pithos state of the inner storage
           queue,     \* Seq of entries [seq, op, b, k, blob, opt, claimed], ascending seq
           nseq,      \* next acceptance sequence number of a queue entry
           accepted,  \* Seq of [call, seq] : every accepted write in acceptance order (seq = 0: synchronous)
-          cl,        \* client -> [pc, call, last, must, res, ryw, condok]
+          virt,      \* = Fold(accepted): the accepted writes applied in acceptance order (derived, kept for speed)
+          cl,        \* client -> [pc, call, last, must, base, res, ryw, condok]
           wk,        \* worker: [pc, seq]
           cnt,       \* [ops, restarts]
           taken      \* deviation tags whose branch was taken so far
 
-vars == <<inner, queue, nseq, accepted, cl, wk, cnt, taken>>
+vars == <<inner, queue, nseq, accepted, virt, cl, wk, cnt, taken>>
 
 TagSync == "D-C21-sync-write-overtakes-queued"
 TagVer  == "D-C21-versioning-race"
@@ -150,7 +152,14 @@ InQueue(s) == \E i \in 1..Len(queue) : queue[i].seq = s
 \* ------------------------------------------------------- acceptance history
 \* The state obtained by applying the accepted writes in acceptance order.  An accepted write is
 \* one the outbox acknowledged as successful; it is applied unconditionally.
-Fresh == InitState(Buckets, Keys, PDev)
+B1 == CHOOSE b \in Buckets : \A x \in Buckets : b = "b1" \/ x # "b1"
+K1 == CHOOSE k \in Keys : \A x \in Keys : k = "k1" \/ x # "k1"
+Bl1 == CHOOSE x \in Blobs : \A y \in Blobs : x = "c1" \/ y # "c1"
+Fresh0 == InitState(Buckets, Keys, PDev)
+Fresh1 == CreateBucket(Fresh0, B1).s
+Fresh == CASE PreState = "bucket" -> Fresh1
+           [] PreState = "object" -> PutObject(Fresh1, B1, K1, Bl1, None, EmptyMeta, None, None, "none", "none").s
+           [] OTHER -> Fresh0
 RECURSIVE FoldN(_, _)
 FoldN(acc, n) == IF n = 0 THEN Fresh ELSE ApplyW(FoldN(acc, n - 1), acc[n].call, "none").s
 Fold(acc) == FoldN(acc, Len(acc))
@@ -159,9 +168,9 @@ Fold(acc) == FoldN(acc, Len(acc))
 Proj(St) == [bver |-> St.bver, keys |-> [b \in Buckets |-> [k \in Keys |-> KeyView(St, b, k)]]]
 
 \* ------------------------------------------------------------------- init
-IdleRec == [pc |-> "idle", call |-> NoCall, last |-> 0, must |-> 0, res |-> [err |-> "", v |-> <<>>], ryw |-> TRUE, condok |-> TRUE]
+IdleRec == [pc |-> "idle", call |-> NoCall, last |-> 0, must |-> 0, base |-> <<>>, res |-> [err |-> "", v |-> <<>>], ryw |-> TRUE, condok |-> TRUE]
 Init == /\ inner = Fresh
-        /\ queue = <<>> /\ nseq = 1 /\ accepted = <<>>
+        /\ queue = <<>> /\ nseq = 1 /\ accepted = <<>> /\ virt = Fresh
         /\ cl = [c \in Clients |-> IdleRec]
         /\ wk = [pc |-> "idle", seq |-> 0]
         /\ cnt = [ops |-> 0, restarts |-> 0]
@@ -173,9 +182,10 @@ FirstPc(call) == IF AlwaysQueued(call) THEN "enq" ELSE IF Routed(call) THEN "rou
 Invoke(c, call) ==
   /\ cl[c].pc = "idle" /\ cnt.ops < MaxOps
   /\ cl' = [cl EXCEPT ![c] = [IdleRec EXCEPT !.pc = FirstPc(call), !.call = call, !.must = Len(accepted),
+                                             !.base = IF IsRead(call) THEN virt ELSE <<>>,
                                              !.ryw = cl[c].ryw, !.condok = cl[c].condok]]
   /\ cnt' = [cnt EXCEPT !.ops = @ + 1]
-  /\ UNCHANGED <<inner, queue, nseq, accepted, wk, taken>>
+  /\ UNCHANGED <<inner, queue, nseq, accepted, virt, wk, taken>>
 
 \* PutObject: write through iff the inner bucket is versioning-Enabled;
 \* DeleteObject: write through iff the inner bucket has any versioning status.
@@ -185,7 +195,7 @@ RouteSync(call) ==
 Route(c) ==
   /\ cl[c].pc = "route"
   /\ cl' = [cl EXCEPT ![c].pc = IF RouteSync(cl[c].call) THEN "drain" ELSE "enq"]
-  /\ UNCHANGED <<inner, queue, nseq, accepted, wk, cnt, taken>>
+  /\ UNCHANGED <<inner, queue, nseq, accepted, virt, wk, cnt, taken>>
 
 \* which deviation covers synchronous writer d
 DevFor(d) == IF cl[d].call.op = "PutVersioning" THEN TagVer ELSE TagSync
@@ -201,6 +211,7 @@ Enqueue(c) ==
   /\ queue' = Append(queue, e)
   /\ nseq' = nseq + 1
   /\ accepted' = Append(accepted, [call |-> cl[c].call, seq |-> nseq])
+  /\ virt' = ApplyW(virt, cl[c].call, "none").s
   /\ cl' = [cl EXCEPT ![c].pc = "idle"]
   /\ taken' = taken \cup {DevFor(d) : d \in ov}
   /\ UNCHANGED <<inner, wk, cnt>>
@@ -210,7 +221,7 @@ DrainStart(c) ==
   /\ cl[c].pc = "drain"
   /\ cl' = [cl EXCEPT ![c].pc = IF m = {} THEN "inner" ELSE "poll",
                       ![c].last = IF m = {} THEN 0 ELSE Max(m)]
-  /\ UNCHANGED <<inner, queue, nseq, accepted, wk, cnt, taken>>
+  /\ UNCHANGED <<inner, queue, nseq, accepted, virt, wk, cnt, taken>>
 
 \* the code's exit condition of the wait loop / the one a synchronous write needs
 CodeDone(c)   == \A s \in MatchSeqs(ScopeOf(cl[c].call)) : s > cl[c].last
@@ -221,27 +232,38 @@ DrainPoll(c) ==
   /\ PollDone(c)
   /\ cl' = [cl EXCEPT ![c].pc = "inner"]
   /\ taken' = IF IsWrite(cl[c].call) /\ ~StrongDone(c) THEN taken \cup {DevFor(c)} ELSE taken
-  /\ UNCHANGED <<inner, queue, nseq, accepted, wk, cnt>>
+  /\ UNCHANGED <<inner, queue, nseq, accepted, virt, wk, cnt>>
 
-\* read-your-writes: the answer is the answer in the state after SOME prefix of the acceptance
-\* history that contains every write accepted before the read started
-RYWHolds(c, r) == \E n \in cl[c].must .. Len(accepted) : r = ReadOn(FoldN(accepted, n), cl[c].call)
+\* read-your-writes: the answer reflects every write accepted before the read started - it is the
+\* answer in the state obtained from those writes plus SOME of the writes accepted since (in
+\* acceptance order; a write accepted while the read is in flight may or may not be reflected,
+\* independently of the others: write-through calls on other keys legitimately pass queued entries)
+RECURSIVE FoldSel(_, _, _, _)
+FoldSel(St, acc, i, sel) ==
+  IF i > Len(acc) THEN St
+  ELSE FoldSel(IF i \in sel THEN ApplyW(St, acc[i].call, "none").s ELSE St, acc, i + 1, sel)
+RYWHolds(c, r) == \E sel \in SUBSET ((cl[c].must + 1) .. Len(accepted)) :
+                     r = ReadOn(FoldSel(cl[c].base, accepted, cl[c].must + 1, sel), cl[c].call)
 
-Inner(c) ==
+InnerRead(c, r) ==
+  /\ cl' = [cl EXCEPT ![c].pc = "idle", ![c].res = r, ![c].base = <<>>, ![c].ryw = cl[c].ryw /\ RYWHolds(c, r)]
+  /\ UNCHANGED <<inner, accepted, virt>>
+\* a = the call applied to the inner storage, af = the call applied to the accepted history
+InnerWrite(c, a, af) ==
   LET call == cl[c].call IN
+  /\ inner' = a.s
+  /\ accepted' = IF a.r.err = "" THEN Append(accepted, [call |-> call, seq |-> 0]) ELSE accepted
+  /\ virt' = IF a.r.err = "" THEN ApplyW(virt, call, "none").s ELSE virt
+  \* C07: the precondition is decided as it would be on the accepted history
+  /\ cl' = [cl EXCEPT ![c].pc = "idle", ![c].res = [err |-> a.r.err, v |-> <<[vid |-> a.r.vid, dm |-> a.r.dm]>>],
+                      ![c].condok = cl[c].condok /\ (call.cond = "none" \/ (a.r.err = "") = (af.r.err = ""))]
+Inner(c) ==
   /\ cl[c].pc = "inner"
-  /\ IF IsRead(call)
-     THEN LET r == ReadOn(inner, call) IN
-          /\ cl' = [cl EXCEPT ![c].pc = "idle", ![c].res = r, ![c].ryw = cl[c].ryw /\ RYWHolds(c, r)]
-          /\ UNCHANGED <<inner, accepted>>
-     ELSE LET a == ApplyW(inner, call, PCond(inner, call))
-              f == Fold(accepted)
-              af == ApplyW(f, call, PCond(f, call)) IN
-          /\ inner' = a.s
-          /\ accepted' = IF a.r.err = "" THEN Append(accepted, [call |-> call, seq |-> 0]) ELSE accepted
-          \* C07: the precondition is decided as it would be on the accepted history
-          /\ cl' = [cl EXCEPT ![c].pc = "idle", ![c].res = [err |-> a.r.err, v |-> <<>>],
-                              ![c].condok = cl[c].condok /\ (call.cond = "none" \/ (a.r.err = "") = (af.r.err = ""))]
+  /\ IF IsRead(cl[c].call)
+     THEN \E r \in {ReadOn(inner, cl[c].call)} : InnerRead(c, r)
+     ELSE \E a \in {ApplyW(inner, cl[c].call, PCond(inner, cl[c].call))} :
+          \E af \in {IF cl[c].call.cond = "none" THEN a ELSE ApplyW(virt, cl[c].call, PCond(virt, cl[c].call))} :
+             InnerWrite(c, a, af)
   /\ UNCHANGED <<queue, nseq, wk, cnt, taken>>
 
 \* ----------------------------------------------------------------- worker
@@ -249,37 +271,37 @@ Claim ==
   /\ wk.pc = "idle" /\ queue # <<>> /\ ~queue[1].claimed
   /\ queue' = [queue EXCEPT ![1].claimed = TRUE]
   /\ wk' = [pc |-> "claimed", seq |-> queue[1].seq]
-  /\ UNCHANGED <<inner, nseq, accepted, cl, cnt, taken>>
+  /\ UNCHANGED <<inner, nseq, accepted, virt, cl, cnt, taken>>
 
 Replay ==
   /\ wk.pc = "claimed"
-  /\ LET a == ApplyEntry(inner, queue[QIdx(wk.seq)]) IN
+  /\ \E a \in {ApplyEntry(inner, queue[QIdx(wk.seq)])} :
      /\ inner' = a.s
      /\ wk' = [wk EXCEPT !.pc = IF a.r.err = "" THEN "replayed" ELSE "failed"]
-  /\ UNCHANGED <<queue, nseq, accepted, cl, cnt, taken>>
+  /\ UNCHANGED <<queue, nseq, accepted, virt, cl, cnt, taken>>
 
 Finalize ==
   /\ wk.pc = "replayed"
   /\ queue' = SelectSeq(queue, LAMBDA e : e.seq # wk.seq)
   /\ wk' = [pc |-> "idle", seq |-> 0]
-  /\ UNCHANGED <<inner, nseq, accepted, cl, cnt, taken>>
+  /\ UNCHANGED <<inner, nseq, accepted, virt, cl, cnt, taken>>
 
 Release ==
   /\ wk.pc = "failed"
   /\ queue' = [queue EXCEPT ![QIdx(wk.seq)].claimed = FALSE]
   /\ wk' = [pc |-> "idle", seq |-> 0]
-  /\ UNCHANGED <<inner, nseq, accepted, cl, cnt, taken>>
+  /\ UNCHANGED <<inner, nseq, accepted, virt, cl, cnt, taken>>
 
 \* the process running the worker dies and is restarted: the claim stays until the lease runs out
 WorkerRestart ==
   /\ wk.pc \in {"claimed", "replayed", "failed"} /\ cnt.restarts < MaxRestarts
   /\ wk' = [pc |-> "idle", seq |-> 0]
   /\ cnt' = [cnt EXCEPT !.restarts = @ + 1]
-  /\ UNCHANGED <<inner, queue, nseq, accepted, cl, taken>>
+  /\ UNCHANGED <<inner, queue, nseq, accepted, virt, cl, taken>>
 LeaseExpire ==
   /\ wk.pc = "idle" /\ queue # <<>> /\ queue[1].claimed
   /\ queue' = [queue EXCEPT ![1].claimed = FALSE]
-  /\ UNCHANGED <<inner, nseq, accepted, cl, wk, cnt, taken>>
+  /\ UNCHANGED <<inner, nseq, accepted, virt, cl, wk, cnt, taken>>
 
 Next == \/ \E c \in Clients : \/ \E call \in Calls : Invoke(c, call)
                               \/ Route(c) \/ Enqueue(c) \/ DrainStart(c) \/ DrainPoll(c) \/ Inner(c)
@@ -292,7 +314,8 @@ Drained == queue = <<>> /\ wk.pc = "idle"
 \* C21a: every read reflected every write accepted before it started
 ReadYourWrites == \A c \in Clients : cl[c].ryw
 \* C21b: once drained, the inner storage is the fold of the accepted writes in acceptance order
-Converges == Drained => Proj(inner) = Proj(Fold(accepted))
+Converges == Drained => Proj(inner) = Proj(virt)
+VirtIsFold == virt = Fold(accepted)
 \* C07 (outbox): a synchronous conditional write is decided on a state that includes every
 \* previously accepted write (so it cannot succeed on an older ETag), and - Converges - no older
 \* queued write is replayed over it
@@ -303,6 +326,7 @@ SyncWriteSeesAll ==
 \* FIFO: queue entries are in acceptance order and the worker holds the oldest one
 QueueOrdered == /\ \A i, j \in 1..Len(queue) : i < j => queue[i].seq < queue[j].seq
                 /\ wk.pc # "idle" => (InQueue(wk.seq) /\ queue[1].seq = wk.seq)
+ClientSym == Permutations(Clients)    \* MC configs declare Clients as model values
 TypeOK == /\ wk.pc \in {"idle", "claimed", "replayed", "failed"}
           /\ \A c \in Clients : cl[c].pc \in {"idle", "route", "enq", "drain", "poll", "inner"}
           /\ StateOK(inner)
